@@ -1289,6 +1289,101 @@ def run_binops(prop, tier, seed):
 
 
 # ---------------------------------------------------------------------------------------------
+# write_with_html_escaping (C02): which KINDS of non-string values are written without escaping, with the
+# kind SYMBOLIC: only undefined, none, booleans and numbers may bypass HtmlEscape
+# ---------------------------------------------------------------------------------------------
+def value_kinds(repo):
+    src = open(os.path.join(repo, 'minijinja', 'src', 'value', 'mod.rs'), encoding='utf-8').read()
+    m = re.search(r'pub enum ValueKind \{(.*?)\n\}', src, re.S)
+    if not m:
+        raise MirError('enum ValueKind not found')
+    return re.findall(r'^\s{4}([A-Z]\w*),', re.sub(r'\s*///[^\n]*', '', re.sub(r'#\[[^\]]*\]', '', m.group(1))), re.M)
+
+
+def check_raw_kinds(mir, kinds):
+    text = function_text(mir, r'^fn (?:utils::)?write_with_html_escaping\(')
+    if text is None:
+        return 'unknown', dict(kind='write_with_html_escaping not found in the MIR'), 0.0, {}
+    fn = parse_function(text)
+    der, _ = derive_map(fn)
+    kind_locals = set()
+    for b in fn['blocks'].values():
+        dst, callee = call_of(b['term'])
+        if dst and re.match(r'value::Value::kind\(', callee):
+            kind_locals.add(dst)
+    sw = None
+    for bid, b in fn['blocks'].items():
+        m = re.match(r'switchInt\((?:move|copy) (_\d+)\)', b['term'])
+        if m and m.group(1) in der and der[m.group(1)][1] == 'disc' and der[m.group(1)][0] in kind_locals:
+            sw = bid
+    if sw is None:
+        return 'unknown', dict(kind='no dispatch on the value kind found'), 0.0, {}
+
+    def classify(bid):
+        """follow straight-line code: 'escaped' | 'raw' | None"""
+        cur = bid
+        for _ in range(12):
+            blk = fn['blocks'][cur]
+            if any('HtmlEscape::<' in st for st in blk['stmts']):
+                return 'escaped'
+            _, callee = call_of(blk['term'])
+            if callee and re.search(r'Output::<[^>]*>::write_fmt\(|Output::<[^>]*>::write_str\(', callee):
+                return 'raw'
+            nxt = successors(blk['term'])
+            if len(nxt) != 1:
+                return None
+            cur = nxt[0][1]
+        return None
+    # arms either classify directly or set a boolean that is switched on next
+    arms = []
+    m = re.match(r'switchInt\((?:move|copy) _\d+\) -> \[(.*)\];', fn['blocks'][sw]['term'])
+    for part in m.group(1).split(', '):
+        k, tgt = part.split(': ')
+        blk = fn['blocks'][tgt]
+        cls = classify(tgt)
+        if cls is None:
+            # `_m = const true/false; goto -> bbS` followed by `switchInt(move _m)`
+            sets = [re.match(r'(_\d+) = const (true|false);', st) for st in blk['stmts']]
+            sets = [x for x in sets if x]
+            nxt = successors(blk['term'])
+            if sets and len(nxt) == 1:
+                val = sets[-1].group(2) == 'true'
+                sblk = fn['blocks'][nxt[0][1]]
+                m2 = re.match(r'switchInt\((?:move|copy) (_\d+)\) -> \[(.*)\];', sblk['term'])
+                if m2 and m2.group(1) == sets[-1].group(1):
+                    tg = dict(p.split(': ') for p in m2.group(2).split(', '))
+                    final = tg.get('otherwise') if val else tg.get('0')
+                    cls = classify(final) if final else None
+        if cls is None:
+            return 'unknown', dict(kind='cannot classify what happens for kind arm %s' % k), 0.0, {}
+        arms.append((k, cls))
+    k = z3.Int('kind')
+    s_ = z3.Solver()
+    s_.set('timeout', 30000)
+    s_.add(k >= 0, k < len(kinds))
+    if 'String' in kinds:
+        s_.add(k != kinds.index('String'))      # strings take the `as_str()` branch before this dispatch
+    other = [c for v, c in arms if v == 'otherwise']
+    impl = z3.BoolVal(other[0] == 'raw') if other else z3.BoolVal(False)
+    for v, c in arms:
+        if v != 'otherwise':
+            impl = z3.If(k == int(v), z3.BoolVal(c == 'raw'), impl)
+    allowed = [kinds.index(x) for x in ('Undefined', 'None', 'Bool', 'Number') if x in kinds]
+    spec = z3.Or(*[k == a for a in allowed])
+    s_.add(impl != spec)
+    t0 = time.time()
+    r = s_.check()
+    dt = time.time() - t0
+    stats = dict(arms=arms, kinds=kinds)
+    if r == z3.unsat:
+        return 'sat', None, dt, stats
+    if r == z3.sat:
+        kv = s_.model()[k].as_long()
+        return 'unsat', dict(kind='values of kind %s are written %s' % (kinds[kv], 'WITHOUT escaping' if kv not in allowed else 'through HtmlEscape although they never need it'), value_kind=kinds[kv]), dt, stats
+    return str(r), None, dt, stats
+
+
+# ---------------------------------------------------------------------------------------------
 # eval_impl (C02): the print instruction hands its value to write_escaped / the formatter on every path
 # ---------------------------------------------------------------------------------------------
 def run_emit(prop, tier, seed):
@@ -1300,6 +1395,8 @@ def run_emit(prop, tier, seed):
         if text is None:
             raise MirError('eval_impl not found in the MIR dump')
         results = check_binop_arms(parse_function(text), instruction_variants(REPO), table=EMIT_ARM)
+        kv, kinfo, kdt, kstats = check_raw_kinds(mir, value_kinds(REPO))
+        results.append(dict(op='raw_kinds', verdict=kv, conflict=(kinfo or {}).get('kind'), z3_s=round(kdt, 3), arms=[list(a) for a in kstats.get('arms', [])]))
     except MirError as e:
         ev['problems'].append('engine M: %s' % e)
         return ev
@@ -1319,8 +1416,9 @@ def run_emit(prop, tier, seed):
             rp = os.path.join(nativelib.replay_dir(), '%s-M-emit.json' % prop)
             json.dump(dict(engine='M', kind='eval_impl', check='emit_escapes', property=prop, mir_finding=r, scenarios=failing,
                            how='bin/check %s --replay %s' % (prop, rp)), open(rp, 'w'), indent=1)
-            ev['violations'].append(dict(replay=rp, failed=[dict(desc='eval_impl Emit arm: a path prints without write_escaped / the formatter; native scenario %s: %s' % (
-                failing[0]['scenario'], failing[0]['detail'][:220]), loc='minijinja/src/vm/mod.rs eval_impl (MIR)')]))
+            ev['violations'].append(dict(replay=rp, failed=[dict(desc='%s; native scenario %s: %s' % (
+                ('write_with_html_escaping: ' + str(r.get('conflict'))) if r['op'] == 'raw_kinds' else 'eval_impl Emit arm: a path prints without write_escaped / the formatter',
+                failing[0]['scenario'], failing[0]['detail'][:220]), loc='minijinja/src/vm/mod.rs eval_impl / utils.rs (MIR)')]))
         else:
             ev['problems'].append('engine M: Emit arm: a path reaches the next instruction without exactly one write_escaped/format call, but no native print scenario misbehaves')
     if failing and all(r['verdict'] == 'sat' for r in results):
